@@ -37,3 +37,34 @@ def add_predicates(u, verify=False):
         for c in cs.values():
             c.stub = True
     u.inherent('fpdec', 'binops::cmp::impl Decimal', cs)
+
+
+NORMALIZE_SPEC = """
+pub proof fn lemma_strip_props(c: int, n: nat)
+    ensures
+        strip(c, n).1 <= n,
+        c != 0 ==> strip(c, n).0 != 0,
+        abs_int(strip(c, n).0) <= abs_int(c),
+    decreases n
+{
+    if c != 0 && n > 0 && c % 10 == 0 {
+        lemma_strip_props(c / 10, (n - 1) as nat);
+    }
+}
+"""
+
+
+def normalize_contract():
+    return C(
+        post=[('C03.normalize.strip', '(*final(coeff) as int, *final(n_frac_digits) as nat) == strip(*old(coeff) as int, *old(n_frac_digits) as nat)')],
+        ret='r',
+        loops=[Loop(inv=['*coeff != 0',
+                         'strip(*coeff as int, *n_frac_digits as nat) == strip(*old(coeff) as int, *old(n_frac_digits) as nat)'],
+                    dec='*n_frac_digits')])
+
+
+def add_normalize(u, verify=False):
+    c = normalize_contract()
+    if not verify:
+        c.stub = True
+    u.fn('fpdec', 'normalize', c)
